@@ -17,18 +17,22 @@ def main():
     b = ctx.b
     npool = ctx.q(30, 200); nfresh = ctx.q(20, 300)
     progs = []
-    def take(tag, cnt):
+    def take(tag, cnt, extra=()):
         k = 0; tried = 0
         while k < cnt and tried < cnt * 40:
             sd = '%s/%d' % (tag, tried); tried += 1
             r = random.Random(sd)
-            feats = set(r.sample(FEATS, r.randint(3, len(FEATS))))
+            feats = set(r.sample(FEATS, r.randint(3, len(FEATS)))) | set(extra)
             try:
                 g = gen.Gen(sd, features=feats); g.mi_lit_max = 1 << 30; g.build()
                 out, cls = gen.Eval(g, mi_bits=30).run()
             except (gen.Discard, RecursionError): continue
             progs.append((sd, g, gen.Render(g).text(), out, cls)); k += 1
     take('C12-pool', npool); take('C12-fresh-%d' % ctx.seed, nfresh)
+    # opt-in shape: a curried counter whose innermost closure assigns a variable two environment levels up (after inlining at -Q3
+    # this is a store through (EElt fmt env LEVEL idx) with LEVEL > 0; added after seeded change C12-java-eelt-store)
+    ncnt = ctx.q(10, 80)
+    take('C12-counter-pool', ncnt // 2, extra=('counters', 'closures')); take('C12-counter-fresh-%d' % ctx.seed, ncnt - ncnt // 2, extra=('counters', 'closures'))
     canaries = set()
     cp_ = os.path.join(VERIF, 'corpus', 'c12_canaries.txt')
     if os.path.exists(cp_): canaries = set(l.strip() for l in open(cp_) if l.strip())
@@ -37,9 +41,7 @@ def main():
     CP = ':'.join([os.path.join(b.B, 'aldor/lib/java/src/foamj.jar'), os.path.join(b.B, 'aldor/lib/libfoam/al/foam.jar'), os.path.join(b.B, 'lib/aldor/src/aldor.jar')])
     units = []
     for i, (sd, g, text, out, cls) in enumerate(progs):
-        # the fresh slice runs at -Q1 only: at -Q3 the pinned tree's Java route miscomputes a few programs (recorded per pool
-        # program), which a fresh program could hit under another name
-        for lv in (LEVELS if sd.startswith('C12-pool') else LEVELS[:1]):
+        for lv in LEVELS:
             units.append((i, lv, 'zqj%dq%s' % (i, lv[2:])))
     def trans(u):
         i, lv, name = u
@@ -63,22 +65,22 @@ def main():
         supported.append((i, lv, name))
     ctx.log('%d units translated, %d unsupported' % (len(supported), unsupported))
     # one javac per chunk
-    chunks = [supported[k:k + 40] for k in range(0, len(supported), 40)]
+    chunks = [supported[k:k + 8] for k in range(0, len(supported), 8)]
     def jc(ch):
         files = [os.path.join('aldorcode', nm + '.java') for _, _, nm in ch]
         return ch, run(['javac', '-nowarn', '-cp', CP, '-d', 'out'] + files, cwd=d, timeout=900)
-    good = []
-    for ch, p in pmap(jc, chunks, workers=4):
-        if p.rc != 0:
-            # find the culprits one by one
-            for u in ch:
-                q_ = run(['javac', '-nowarn', '-cp', CP + ':out', '-d', 'out', os.path.join('aldorcode', u[2] + '.java')], cwd=d, timeout=300)
-                if q_.rc != 0:
-                    msg = (q_.err + q_.out).decode(errors='replace')
-                    key = 'javac-rejects:not-a-statement' if 'error: not a statement' in msg and msg.count('error:') == 1 else 'javac-rejects-generated-class'
-                    ctx.violation(key, '%s %s: %s' % (progs[u[0]][0], u[1], (q_.err + q_.out)[-500:].decode(errors='replace')), {'x.as': progs[u[0]][2], 'x.java': open(os.path.join(d, 'aldorcode', u[2] + '.java'), 'rb').read()[:200000]})
-                else: good.append(u)
+    good = []; retry = []
+    for ch, p in pmap(jc, chunks, workers=8):
+        if p.rc != 0: retry += ch
         else: good += ch
+    def jc1(u):       # find the culprits of a failed chunk one by one
+        return u, run(['javac', '-nowarn', '-cp', CP + ':out', '-d', 'out', os.path.join('aldorcode', u[2] + '.java')], cwd=d, timeout=300)
+    for u, q_ in pmap(jc1, retry, workers=8):
+        if q_.rc != 0:
+            msg = (q_.err + q_.out).decode(errors='replace')
+            key = 'javac-rejects:not-a-statement' if 'error: not a statement' in msg and msg.count('error:') == 1 else 'javac-rejects-generated-class'
+            ctx.violation(key, '%s %s: %s' % (progs[u[0]][0], u[1], (q_.err + q_.out)[-500:].decode(errors='replace')), {'x.as': progs[u[0]][2], 'x.java': open(os.path.join(d, 'aldorcode', u[2] + '.java'), 'rb').read()[:200000]})
+        else: good.append(u)
     def runj(u):
         i, lv, name = u
         return u, run(['java', '-Xss8m', '-cp', CP + ':out', 'aldorcode.' + name], cwd=d, timeout=120)
